@@ -37,7 +37,9 @@ REPO = os.environ.get("VERIF_REPO", "/repo")
 SHIM = os.path.join(BUILD, "capysim_shim.so")
 LAUNCH = os.path.join(BUILD, "capysim_launch")
 LDSO = "/lib64/ld-linux-x86-64.so.2"
-SCRATCH_ROOT = os.environ.get("CAPYSIM_SCRATCH", "/tmp/capysim")
+# one scratch root per check process (several checks may run at the same time); fixed width, so
+# that the length of every path the compiler sees is the same in every run
+SCRATCH_ROOT = os.environ.get("CAPYSIM_SCRATCH") or "/tmp/capysim-%07d" % (os.getpid() % 10**7)
 
 REFERENCE_WORLD = {
     "layout": "default",
